@@ -66,7 +66,18 @@ impl Write for WritableFile {
         #[cfg(feature = "verif-hooks")]
         crate::verif_hooks::yield_point("memory::flush::write");
         let mut handle = self.fs.write().unwrap();
+        if ensure_parent_directory(&handle.files, &self.destination).is_err() {
+            // the directory this file lived in is gone: like data written to an unlinked file, it goes nowhere
+            // (re-inserting the entry would leave a file without a parent directory)
+            return Ok(());
+        }
         let previous_file = handle.files.get(&self.destination);
+        if let Some(file) = previous_file {
+            if file.file_type == VfsFileType::Directory {
+                // the path was turned into a directory while this handle was open: never replace it
+                return Ok(());
+            }
+        }
 
         let new_file = MemoryFile {
             file_type: VfsFileType::File,
